@@ -122,6 +122,7 @@ def run(tier, seed, replay=None):
     R = Run(PROP, tier, seed)
     proof = prove(PROP, thorough=(tier == "thorough"))
     build_hooked()
+    R.check_witnesses()
     r = R.rng
     n_fmt = 3000 if tier == "quick" else 60000
     n_prog = 300 if tier == "quick" else 6000
